@@ -595,3 +595,40 @@ class MProcessCopyIndependent(E2Contract):
                 eq("copy-owns-its-generator", [out["shared_gen"], out["shared_stream"]], [False, False], "the copy shares neither the generator object nor the stream"),
                 eq("copy-owns-its-arrays", out["shared_arrays"], False, "the copy's HS arrays are its own"),
                 eq("mode-kept", out["mode"], True, "the copy samples as the original does")]
+
+
+class ReplaceProbDistFrame(E2Contract):
+    """matrix_util.replace_prob_dist on a distribution that HAS entries below the threshold (the regime in which it edits values): the result is
+    the documented replacement and the caller's array is left as it was (frame) - the inverse-covariance weights and the Fisher matrix go through it"""
+    name = "matrix_util.replace_prob_dist (clipping regime)"
+    prop = "C13"
+    targets = ("quara.utils.matrix_util:replace_prob_dist",)
+    frame = True
+    n_conformance = 2
+    max_paths = 16
+
+    def configs(self, tier):
+        return [(3, (1,)), (4, (0, 2))]
+
+    def inputs(self, W, cfg, mk):
+        n, zeros = cfg
+        q = mk.array("q", n)
+        for k in range(n):
+            if k in zeros:
+                q[k] = 0.0
+            else:
+                mk.require(q[k] >= 1e-3)
+                mk.require(q[k] <= 1)
+        return dict(q=q)
+
+    def sample(self, cfg, names, rng):
+        return {nm: rng.uniform(0.05, 0.9) for nm in names}
+
+    def run(self, W, cfg, inp):
+        return W.mod("quara.utils.matrix_util").replace_prob_dist(inp["q"])
+
+    def post(self, W, cfg, inp, out):
+        n, zeros = cfg
+        eps = 1e-8
+        want = [eps if k in zeros else inp["q"][k] - eps * len(zeros) / (n - len(zeros)) for k in range(n)]
+        return [eq("documented-replacement", out, want, "entries below eps become eps, the others give up eps * (number replaced) / (number kept) each")]
